@@ -178,6 +178,9 @@ def check_case(case):
     y = np.asarray(case["y"], float)
     scale = float((y ** 2).sum() / max(1, y.shape[0])) if not (case["datafit"] and case["datafit"]["name"] == "Cox") else 1.
     F0 = F_of(case, start_point(case))
+    if F0 == -math.inf or F0 != F0:
+        # the objective itself underflows at the start (Cox: log(sum exp(-1000)) = -inf): no descent statement to judge
+        return result([], False, classes + ["objective-underflow-at-start(inconclusive)"])
     viol = []
     Fs, ws = [], []
     for k in fam["budgets"]:
